@@ -2,8 +2,10 @@
 """Prints the prompt for an independent 'seeding' sub-agent: property text + scratch worktree only (nothing from /verif)."""
 import json, sys, os
 pid, wt = sys.argv[1], sys.argv[2]
+round2 = len(sys.argv) > 3 and sys.argv[3] == "2"
 V = os.path.dirname(os.path.dirname(os.path.abspath(__file__)))
 p = next(json.loads(l) for l in open(os.path.join(V, "properties.jsonl")) if json.loads(l)["id"] == pid)
+EXTRA = ("EMPHASIS FOR THIS ROUND: at least two of your changes must need one of the following to manifest, and none may be a plain single-site off-by-one or a dropped check: (a) a specific interleaving of goroutines or a fault/close/timeout at a particular instant; (b) reuse of a resource across logically separate uses - object pools, recycled buffers, caches, retained slices/aliasing, state kept in a longer-lived object than intended; (c) two cooperating sites that each look correct alone; (d) an unusual but legal protocol feature, header, option or configuration combination that the project's own client never produces; (e) an error path or shutdown path. Look beyond the first file listed: callers, wrappers and configuration plumbing count.\n\n" if round2 else "")
 print(f"""You are given a scratch git worktree of the Go project apernet/hysteria (Hysteria 2: a censorship-resistant TCP/UDP proxy over a customized QUIC) at {wt} . Work ONLY inside that directory. Do not read, list or use anything under /verif, and do not touch /repo. The sandbox is offline (no network, nothing can be downloaded). Go: run commands from inside a module directory ({wt}/core, {wt}/extras or {wt}/app); plain `go build ./...` / `go test ./<pkg>/...` work there (the right toolchain, Go 1.25, is selected automatically; if `go` complains about downloading a toolchain use /root/go/pkg/mod/golang.org/toolchain@v0.0.1-go1.25.0.linux-amd64/bin/go with GOTOOLCHAIN=local GOPROXY=off GOFLAGS=). Some tests in the repo fail offline for unrelated reasons (those needing external python clients, DNS or network); judge "passes the existing tests" by comparing with the unmodified tree.
 
 Here is a semantic property the project is supposed to satisfy:
@@ -21,7 +23,7 @@ Make each change look like a plausible refactor, optimisation or well-meant bug 
 
 For each change also write a DEMONSTRATION: a Go test file (placed next to the code, e.g. <pkg>/seeded_demo_test.go; it may be an in-package test) or a small program that FAILS (or panics) with your change and PASSES on the unmodified tree. Verify both directions yourself. NEVER use `git stash` (the stash is shared by all worktrees of the repository and other people work in sibling worktrees concurrently): save your change with `git diff -- <source files> > /tmp/$(basename {wt})-change.diff`, remove it with `git checkout -- <source files>`, run the demo, restore it with `git apply /tmp/...-change.diff`, run again. If `git status` ever shows modifications in files you did not touch, discard them with `git checkout -- <file>`. The core integration tests bind the fixed port 127.0.0.1:14514; other people may run them at the same time, so run them inside a private network namespace: `unshare -n bash -c 'ip link set lo up; go test ./internal/integration_tests/ -run <names>'`.
 
-Produce up to 3 DISTINCT changes (different mechanisms / different parts of the property), each independently applicable to the pristine tree. For change k (k = 1, 2, 3) deliver a directory {wt}/SEED/k/ containing:
+{EXTRA}Produce up to 3 DISTINCT changes (different mechanisms / different parts of the property), each independently applicable to the pristine tree. For change k (k = 1, 2, 3) deliver a directory {wt}/SEED/k/ containing:
   - patch.diff  : `git diff` of the source change only (NOT including the demo test), applicable with `git apply` from the repository root of a pristine tree;
   - the demonstration file(s), plus demo_cmd.txt with the exact command to run it and from which directory;
   - meta.json   : {{"property": "{pid}", "summary": "...what the change does and why it breaks the property...", "needs_to_manifest": "...the specific input/sequence/interleaving...", "looks_like": "...refactor/optimisation/fix it is disguised as...", "existing_tests_run": ["...commands..."], "demo_fails_with_change": true, "demo_passes_without_change": true}}
